@@ -8,7 +8,7 @@ from .ty import INT, BOOL, CHAR, NONE, SLICE, TStr, TList, TTuple, TOpt, TRec, T
 from .engine import SDict, V, K, PyObj, STuple, Unsupported, none_v, mk_int, mk_bool, fresh, seq_arr, seq_len, mk_seq, str_const, is_str
 
 # refutation mode: expand quantifiers over 0..BOUND and bound every fresh sequence length
-MODE = {"bounded": None}
+MODE = {"bounded": None, "side": []}
 
 
 def coerce(v, ty: Ty, st=None):
@@ -316,6 +316,14 @@ def rec_make(t: TRec, vals: dict) -> V:
     return V(t, t.sort().constructor(0)(*zs))
 
 
+def note_range(lo, hi):
+    """Refutation mode expands integer quantifiers over -1..BOUND: only sound for counter-models in which every
+    quantified range lies inside that window -- recorded as a side constraint of the bounded query."""
+    b = MODE["bounded"]
+    if b is not None:
+        MODE["side"].append(z3.Or(hi <= lo, z3.And(lo >= -1, hi <= b + 1)))
+
+
 def forall(vars_, body, rng=None):
     """Universal quantifier; in bounded (refutation) mode expand over 0..BOUND."""
     b = MODE["bounded"]
@@ -471,6 +479,12 @@ def seq_concat(a: V, b: V, st) -> V:
     i = z3.Int(T.fresh_name("qc"))
     st.assume(forall([i], z3.Implies(z3.And(0 <= i, i < la), z3.Select(seq_arr(r), i) == z3.Select(seq_arr(a), i))))
     st.assume(forall([i], z3.Implies(z3.And(0 <= i, i < lb), z3.Select(seq_arr(r), i + la) == z3.Select(seq_arr(b), i))))
+    if MODE["bounded"] is None:
+        # the same fact indexed from the result side (triggers on r[k])
+        k = z3.Int(T.fresh_name("qc"))
+        st.assume(z3.ForAll([k], z3.Implies(z3.And(la <= k, k < la + lb),
+                                            z3.Select(seq_arr(r), k) == z3.Select(seq_arr(b), k - la)),
+                            patterns=[z3.Select(seq_arr(r), k)]))
     return r
 
 
